@@ -3,3 +3,4 @@ pub mod envdrive;
 pub mod gen;
 pub mod obs;
 pub mod proto;
+pub mod sim;
